@@ -849,7 +849,7 @@ const VALUES: [&str; 26] = [
 ];
 
 /// Value shapes for the tables with global aliases.
-const GLOBAL_VALUES: [&str; 8] = ["N", "N ", "probe x", "S", "", ";", "| probe p", "'N'"];
+const GLOBAL_VALUES: [&str; 10] = ["N", "N ", "probe x", "S", "", ";", "| probe p", "'N'", "probe N ", "N w"];
 
 fn instantiate(shape: &str, k: usize, n: usize) -> String {
     let mut s = String::new();
